@@ -3,14 +3,167 @@ import Insim.Model.LayoutEnv
 import Insim.Props.C13
 import Insim.Props.C14
 import Insim.Props.C15
+import Insim.Props.C16
 /-
 The hand-written field codecs plug into the generic layout proof: `CRep` is each codec's in-domain
 predicate, `customs_lawful` the proof that, on it, decoding the written bytes returns the values.
-`GameVersion` (8-byte text <-> parsed version) is not covered by a theorem here — its `CRep` is empty —
-and is tied to the code by the correspondence run only.
+`GameVersion` (8-byte text <-> parsed version): the model carries the major number as its canonical text
+(the float's shortest printing, see Model/Layout.lean); in-domain = canonical major text, upper-case minor
+letter, the printed text fits the 8 bytes. That printing and parsing an `f32` agree with this text-level
+view is tied to the code by the correspondence run (C16 states the laws assumed of the standard library).
 -/
 namespace Insim.Layout
 open Insim
+
+/-- a canonical major text: ASCII digits and dots only, left unchanged by `normMajor`, readable as a float -/
+def GvMajorOk (maj : Bytes) : Prop :=
+  (∀ c ∈ maj, GV.isAsciiDigit c = true ∨ c = 46) ∧ normMajor maj = maj ∧ (GV.parseF32 maj).isSome = true
+
+def gvText (maj : Bytes) (minor patch : Nat) : Bytes := maj ++ [minor] ++ (if patch = 0 then [] else natDigits (patch - 1))
+
+def GvRep (maj : Bytes) (minor patch : Nat) : Prop :=
+  GvMajorOk maj ∧ 65 ≤ minor ∧ minor ≤ 90 ∧ (gvText maj minor patch).length ≤ 8
+
+theorem trimEndNul_pad (t : Bytes) (k : Nat) (hne : t ≠ []) (hnz : ∀ c ∈ t, c ≠ 0) : trimEndNul (t ++ List.replicate k 0) = t := by
+  unfold trimEndNul
+  rw [List.reverse_append, List.reverse_replicate]
+  have h1 : ∀ (k : Nat) (r : Bytes), (List.replicate k 0 ++ r).dropWhile (· = 0) = r.dropWhile (· = 0) := by
+    intro k r
+    induction k with
+    | zero => simp
+    | succ n ih => simp [List.replicate_succ, List.dropWhile_cons, ih]
+  rw [h1]
+  cases hr : t.reverse with
+  | nil => exact absurd (List.reverse_eq_nil_iff.mp hr) hne
+  | cons x xs =>
+    have hx : x ≠ 0 := hnz x (by rw [← List.mem_reverse, hr]; simp)
+    simp only [List.dropWhile_cons, hx, decide_false, Bool.false_eq_true, if_false]
+    rw [← hr, List.reverse_reverse]
+
+theorem digit_nz (c : Nat) (h : GV.isAsciiDigit c = true) : c ≠ 0 ∧ c < 128 := by
+  simp [GV.isAsciiDigit] at h; omega
+
+theorem takeWhile_pre (p : Nat → Bool) (pre : Bytes) (c : Nat) (rest : Bytes) (hp : ∀ x ∈ pre, p x = true) (hc : p c = false) :
+    (pre ++ c :: rest).takeWhile p = pre := by
+  induction pre with
+  | nil => simp [List.takeWhile_cons, hc]
+  | cons x xs ih =>
+    have hx : p x = true := hp x (by simp)
+    simp only [List.cons_append, List.takeWhile_cons, hx, if_true, ih (fun y hy => hp y (by simp [hy]))]
+
+theorem lt_pow_natDigits (n : Nat) : n < 10 ^ (GV.natDigits n).length := by
+  induction n using Nat.strongRecOn with
+  | _ n ih =>
+    rw [GV.natDigits]
+    split
+    · simp; omega
+    · have := ih (n / 10) (by omega)
+      rw [List.length_append, List.length_singleton, Nat.pow_succ]
+      omega
+
+theorem gv_roundtrip (env : Env) (maj : Bytes) (minor patch : Nat) (h : GvRep maj minor patch) (bs : Bytes)
+    (he : customEnc env .gameVersion [.b maj, .n minor, .n patch] = .ok bs) :
+    customDec env .gameVersion bs = .ok [.b maj, .n minor, .n patch] := by
+  obtain ⟨⟨hchars, hnorm, hpf⟩, hlo, hhi, hlen⟩ := h
+  simp only [customEnc] at he
+  injection he with he
+  have htxt : (maj ++ [minor] ++ (if patch = 0 then [] else natDigits (patch - 1))) = gvText maj minor patch := rfl
+  rw [htxt, List.take_of_length_le hlen] at he
+  subst he
+  -- facts about the text
+  have hds : ∀ c ∈ (if patch = 0 then [] else natDigits (patch - 1)), GV.isAsciiDigit c = true := by
+    intro c hc
+    split at hc
+    · cases hc
+    · exact Props.C16.natDigits_digits _ c hc
+  have hall : ∀ c ∈ gvText maj minor patch, c ≠ 0 ∧ c < 128 := by
+    intro c hc
+    simp only [gvText, List.mem_append, List.mem_singleton] at hc
+    rcases hc with (hc | hc) | hc
+    · rcases hchars c hc with h | h
+      · exact digit_nz c h
+      · subst h; omega
+    · subst hc; omega
+    · exact digit_nz c (hds c hc)
+  have hne : gvText maj minor patch ≠ [] := by simp [gvText]
+  have htrim := trimEndNul_pad (gvText maj minor patch) (8 - (gvText maj minor patch).length) hne (fun c hc => (hall c hc).1)
+  have hlt : (gvText maj minor patch ++ List.replicate (8 - (gvText maj minor patch).length) 0).all (· < 128) = true := by
+    rw [List.all_eq_true]
+    intro c hc
+    rw [List.mem_append] at hc
+    rcases hc with hc | hc
+    · simpa using (hall c hc).2
+    · rw [List.mem_replicate] at hc; simp [hc.2]
+  simp only [customDec, hlt, if_true, htrim]
+  -- the major phase
+  have hmajp : ∀ x ∈ maj, GV.isMajorChar gvEnv x = true := by
+    intro x hx
+    rcases hchars x hx with h | h
+    · simp [GV.isMajorChar, gvEnv, h]
+    · subst h; simp [GV.isMajorChar]
+  have hminA : GV.isAsciiAlpha minor = true := by simp [GV.isAsciiAlpha]; omega
+  have hminD : GV.isAsciiDigit minor = false := by simp [GV.isAsciiDigit]; omega
+  have hminM : GV.isMajorChar gvEnv minor = false := by
+    simp only [GV.isMajorChar, gvEnv, hminD, Bool.false_or]; simp; omega
+  have hshape : gvText maj minor patch = maj ++ minor :: (if patch = 0 then [] else natDigits (patch - 1)) := by
+    simp [gvText]
+  have hspan := Props.C16.spanP_all (GV.isMajorChar gvEnv) maj minor (if patch = 0 then [] else natDigits (patch - 1)) hmajp hminM
+  have hup : GV.toAsciiUpper minor = minor := by simp [GV.toAsciiUpper]; omega
+  obtain ⟨bits, hbits⟩ := Option.isSome_iff_exists.mp hpf
+  have htw : (gvText maj minor patch).takeWhile (fun c => GV.isAsciiDigit c || c == 46) = maj := by
+    rw [hshape]
+    apply takeWhile_pre
+    · intro x hx
+      rcases hchars x hx with h | h
+      · simp [h]
+      · subst h; simp
+    · simp only [hminD, Bool.false_or]; simp; omega
+  have hnotempty : (gvText maj minor patch).isEmpty = false := by
+    cases hg : gvText maj minor patch with
+    | nil => exact absurd hg hne
+    | cons _ _ => rfl
+  -- parse
+  have hparse : GV.parse gvEnv (gvText maj minor patch) =
+      .ok { major := bits, minor := minor, patch := if patch = 0 then none else some (patch - 1) } := by
+    rw [hshape]
+    cases hm : maj ++ minor :: (if patch = 0 then [] else natDigits (patch - 1)) with
+    | nil => simp at hm
+    | cons a as =>
+      rw [← hm]
+      simp only [GV.parse]
+      rw [hm]
+      simp only []
+      rw [← hm, hspan]
+      have e : gvEnv.parseF = GV.parseF32 := rfl
+      simp only [e, hbits, hminA, if_true, hup]
+      by_cases hp0 : patch = 0
+      · simp [hp0, GV.patchPhase]
+      · simp only [hp0, if_false]
+        have hdd : ∀ x ∈ GV.natDigits (patch - 1), gvEnv.isNum x = true := fun x hx => Props.C16.natDigits_digits _ x hx
+        cases hd : natDigits (patch - 1) with
+        | nil => exact absurd hd (Props.C16.natDigits_ne_nil _)
+        | cons d ds =>
+          simp only [GV.patchPhase]
+          rw [← hd]
+          have hsp := Props.C16.spanP_all_nil gvEnv.isNum (GV.natDigits (patch - 1)) hdd
+          have e2 : natDigits (patch - 1) = GV.natDigits (patch - 1) := rfl
+          rw [e2, hsp]
+          have hsmall : patch - 1 < 2 ^ 64 := by
+            have h1 := lt_pow_natDigits (patch - 1)
+            have h2 : (GV.natDigits (patch - 1)).length ≤ 8 := by
+              have := hlen
+              simp only [gvText, hp0, if_false, List.length_append, natDigits] at this
+              omega
+            have h3 : 10 ^ (GV.natDigits (patch - 1)).length ≤ 10 ^ 8 := Nat.pow_le_pow_right (by omega) h2
+            omega
+          simp only [Props.C16.parseUsize_natDigits _ hsmall]
+  rw [hparse]
+  simp only [hnotempty, htw, hnorm]
+  by_cases hp0 : patch = 0
+  · simp [hp0]
+  · simp only [hp0, if_false]
+    have : patch - 1 + 1 = patch := by omega
+    simp [this]
 
 def CRep : CustomId → List Val → Prop
   | .raceLaps, vs => ∃ k x, vs = [.n k, .n x] ∧
@@ -29,7 +182,7 @@ def CRep : CustomId → List Val → Prop
        (d = 10 ∧ v < 2 ^ 32 ∧ v &&& genEnv.smallLclMask = v))
   | .vehicle, vs => ∃ b veh, IsBytes b ∧ Vehicle.decode genEnv.vehRead b = .ok veh ∧ vs = vehVals veh
   | .track, vs => ∃ t, t ∈ Gen.Track.variants ∧ vs = [.n t]
-  | .gameVersion, _ => False
+  | .gameVersion, vs => ∃ maj minor patch, vs = [.b maj, .n minor, .n patch] ∧ GvRep maj minor patch
 
 theorem vehOfVals_vehVals (v : Vehicle.Veh) : vehOfVals (vehVals v) = some v := by
   cases v <;> rfl
@@ -78,7 +231,12 @@ theorem customs_lawful : CustomLawful genEnv CRep := by
       unfold Track.decode at hdw; split at hdw
       · rename_i h6; simpa [wireSize] using h6
       · cases hdw
-    | gameVersion => exact absurd hr (by simp [CRep])
+    | gameVersion =>
+      obtain ⟨maj, minor, patch, rfl, _⟩ := hr
+      simp only [customEnc] at he
+      injection he with he; subst he
+      simp only [List.length_append, List.length_replicate, List.length_take, wireSize]
+      omega
   · -- inverse
     intro c vs bs hr he
     cases c with
@@ -200,7 +358,9 @@ theorem customs_lawful : CustomLawful genEnv CRep := by
       rw [e, hw] at he; injection he with he; subst he
       have e2 : genEnv.trkRead = Gen.Track.readRows := rfl
       simp only [customDec, e2, hdw]
-    | gameVersion => exact absurd hr (by simp [CRep])
+    | gameVersion =>
+      obtain ⟨maj, minor, patch, rfl, h⟩ := hr
+      exact gv_roundtrip genEnv maj minor patch h bs he
   · -- arity
     intro c vs hr
     cases c with
@@ -212,6 +372,10 @@ theorem customs_lawful : CustomLawful genEnv CRep := by
     | smallType => obtain ⟨_, _, rfl, _⟩ := hr; rfl
     | vehicle => obtain ⟨_, veh, _, _, rfl⟩ := hr; cases veh <;> rfl
     | track => obtain ⟨_, _, rfl⟩ := hr; rfl
-    | gameVersion => exact absurd hr (by simp [CRep])
+    | gameVersion => obtain ⟨_, _, _, rfl, _⟩ := hr; rfl
+
+/-- non-vacuity: version `0.7D3` is in the domain -/
+example : GvRep [48, 46, 55] 68 4 := by
+  refine ⟨⟨by decide, by decide, by decide +kernel⟩, by omega, by omega, by decide +kernel⟩
 
 end Insim.Layout
